@@ -68,7 +68,7 @@ def known_matcher(v, k):
     if sig.get("kind") == "htmlwriter-copies-text-unescaped":
         # exactly: the real HtmlWriter behaves as the specification's writer with Escape replaced by the identity
         # in Write (its own spans intact) - decided per violation by comparison with the spec's verbatim-rule
-        # prediction (G), by Strip(html) = plain text (end to end) or by Trace_Html under WriterEscapes = FALSE (J)
+        # prediction (G) or by TLC accepting the recorded writer calls under WriterEscapes = FALSE (J, end to end)
         return v.get("component") == "HtmlWriter" and v.get("verbatim_copy") is True
     return False
 
@@ -202,9 +202,12 @@ STAGES = ("ok", "resolver", "nameres", "type", "runtime")
 def e2e(rep, lim, ecases, d, tier):
     ecases = sorted(ecases, key=lambda e: (e["name"], e["payload"]))
     inp, out, trace = os.path.join(d, "e2e.ndjson"), os.path.join(d, "e2e_out.ndjson"), os.path.join(d, "e2e_trace.ndjson")
-    nv.write_ndjson(inp, [{"id": i, "steps": e["steps"]} for i, e in enumerate(ecases)])
+    for i, e in enumerate(ecases):
+        e["_id"] = i
+    nv.write_ndjson(inp, [{"id": e["_id"], "steps": e["steps"]} for e in ecases])
     nv.harness("nv-html", ["html-e2e", "--cases", inp, "--out", out, "--trace", trace])
     outs = nv.read_ndjson_text(open(out).read())
+    pending = []      # unsafe diagnostics, classified after J
     covered = {}      # (outcome, kind) -> renderings that carry user metacharacters
     stage_drift = []
     renderings = 0
@@ -241,9 +244,11 @@ def e2e(rep, lim, ecases, d, tier):
                      "template": e["name"], "payload": e["raw"], "steps": e["steps"], "step": k, "what": what,
                      "outcome": s["outcome"], "error_kind": s.get("kind"), "html": html[:1500], **describe(html, plain)}
                 if comp == "HtmlWriter":
-                    # the writer's own spans removed, the output is literally the plain-text diagnostic
-                    v["verbatim_copy"] = strip_tags(html) == plain
-                lim.violation(v)
+                    # whether this is the verbatim-copy deviation is decided by TLC on the recorded writer calls
+                    v["trace_key"] = [e["_id"], k]
+                    pending.append(v)
+                else:
+                    lim.violation(v)
     rep.add("evaluations", renderings)
     rep.add("e2e_inputs", len(ecases))
     rep.add("e2e_renderings", renderings)
@@ -271,7 +276,7 @@ def e2e(rep, lim, ecases, d, tier):
             s = o["steps"][-1]
             rep.sample({"e2e_input": e["steps"], "outcome": s["outcome"], "kind": s.get("kind"),
                         "html_tail": s.get("diag", {}).get("html", "")[-220:]})
-    return trace
+    return trace, pending
 
 
 def split_trace(trace, d, maxev):
@@ -292,14 +297,35 @@ def split_trace(trace, d, maxev):
     return paths, [len(c) for c in chunks]
 
 
-def j_traces(rep, lim, trace, d):
-    paths, sizes = split_trace(trace, d, 2000)
-    strict = nv.validate_traces_parallel("Trace_Html", paths, cfg="Trace_Html.cfg", timeout=1200)
+def corrupt_trace(path, d):
+    """binding self-test input: the first events of a chunk with one recorded field corrupted -> (path, line)"""
+    lines = open(path).read().splitlines()[:400]
+    k = max(i for i, x in enumerate(lines[:300]) if '"ev":"write"' in x and '"text":[]' not in x)
+    e = json.loads(lines[k])
+    e["app"] = e["app"][:-1] + ["X"]
+    lines[k] = json.dumps(e, separators=(",", ":"))
+    bad = os.path.join(d, "trace_corrupt.ndjson")
+    open(bad, "w").write("\n".join(lines) + "\n")
+    return bad, k
+
+
+def j_traces(rep, lim, trace, d, pending):
+    paths, sizes = split_trace(trace, d, 2500)
+    bad, badline = corrupt_trace(paths[0], d)
+    # pass 1: the rule C20 demands (plus the corrupted copy of the first events: must be rejected at that line)
+    strict = nv.validate_traces_parallel("Trace_Html", paths + [bad], cfg="Trace_Html.cfg", timeout=1200)
+    selftest = strict.pop()
     rejected = [(p, n, r) for p, n, r in zip(paths, sizes, strict) if not r["accepted"]]
     accepted_cfg = {p: "Trace_Html.cfg" for p, r in zip(paths, strict) if r["accepted"]}
     if rejected:
-        verb = nv.validate_traces_parallel("Trace_Html", [p for p, _, _ in rejected], cfg="Trace_Html_verbatim.cfg",
-                                           timeout=1200)
+        # pass 2: which of the rejected chunks are exactly the verbatim-copy deviation?
+        rp = [p for p, _, _ in rejected]
+        verb = nv.validate_traces_parallel("Trace_Html", rp + ([bad] if paths[0] in rp else []),
+                                           cfg="Trace_Html_verbatim.cfg", timeout=1200)
+        if paths[0] in rp:
+            selftest = verb.pop()
+            if not verb[0]["accepted"]:
+                selftest = None    # the first chunk is accepted by neither rule: nothing to corrupt
         for (p, n, r), r2 in zip(rejected, verb):
             lines = open(p).read().splitlines()
             m = r["matched"] if r["matched"] is not None else 0
@@ -313,6 +339,21 @@ def j_traces(rep, lim, trace, d):
                            "matched": m, "total": n, "violated": r["violated"], "event": ev, "e2e_case_step": at,
                            "verbatim_copy": bool(r2["accepted"]),
                            "verbatim_rule_matched": r2["matched"], "trace_file": p})
+    if selftest is not None:
+        rep.notes["selftest_J_corrupted_event_rejected_at_line"] = selftest["matched"]
+        if selftest["accepted"] or selftest["matched"] != badline:
+            raise nv.ToolError("binding self-test failed: corrupted trace accepted or rejected elsewhere (%s, expected %d)"
+                               % (selftest["matched"], badline))
+    # unsafe diagnostics found end to end: the verbatim-copy deviation iff TLC accepted the recorded writer calls of
+    # that diagnostic under the verbatim rule
+    rule_of = {}
+    for p in paths:
+        for x in open(p):
+            if x.startswith('{"at"'):
+                rule_of[tuple(json.loads(x)["at"])] = accepted_cfg.get(p)
+    for v in pending:
+        v["verbatim_copy"] = rule_of.get(tuple(v.pop("trace_key"))) == "Trace_Html_verbatim.cfg"
+        lim.violation(v)
     rep.add("evaluations", sum(sizes))
     rep.add("j_events", sum(sizes))
     rep.add("traces_validated_against_impl", len(paths))
@@ -321,20 +362,6 @@ def j_traces(rep, lim, trace, d):
         rep.tlc_stats(r["res"])
     first = open(paths[0]).read().splitlines()
     rep.sample({"J_events": [json.loads(x) for x in first[1:3]]})
-    # binding self-test: one corrupted recorded field must be rejected at exactly that line
-    if paths[0] in accepted_cfg:
-        lines = first[:400]
-        k = max(i for i, x in enumerate(lines[:300]) if '"ev":"write"' in x and '"text":[]' not in x)
-        e = json.loads(lines[k])
-        e["app"] = e["app"][:-1] + ["X"]
-        lines[k] = json.dumps(e, separators=(",", ":"))
-        bad = os.path.join(d, "trace_corrupt.ndjson")
-        open(bad, "w").write("\n".join(lines) + "\n")
-        r = nv.validate_trace("Trace_Html", bad, cfg=accepted_cfg[paths[0]])
-        rep.notes["selftest_J_corrupted_event_rejected_at_line"] = r["matched"]
-        if r["accepted"] or r["matched"] != k:
-            raise nv.ToolError("binding self-test failed: corrupted trace accepted or rejected elsewhere (%s, expected %d)"
-                               % (r["matched"], k))
 
 
 def run(tier, seed):
@@ -377,9 +404,9 @@ def run(tier, seed):
     if res0.violated != "InvNoUserMarkup":
         raise nv.ToolError("vacuity self-test failed: NoUserMarkup not violated by the verbatim-write rule (%s)" % res0.violated)
     # end to end + J
-    trace = e2e(rep, lim, ecases, d, tier)
+    trace, pending = e2e(rep, lim, ecases, d, tier)
     nv.log("end to end done at %.1fs" % (time.time() - rep.t0))
-    j_traces(rep, lim, trace, d)
+    j_traces(rep, lim, trace, d, pending)
     nv.log("J done at %.1fs" % (time.time() - rep.t0))
     rep.set("rule", "G: every (format type, text of <= %d characters over {a < > & \" '}) on HtmlFormatter and every sequence "
             "of <= %d set_color/reset/write actions (13-20 action alphabet) on HtmlWriter, outputs compared exactly with Html.tla; end to end: "
